@@ -9,13 +9,15 @@ from .symexec import Exec, Unsupported
 
 
 def verify_one(qual, mode="q", timeout_ms=10000, verbose=False, variant=None, k=4, skip=None, only_props=None,
-               root=None, budget=None):
+               root=None, budget=None, cpu_limit=None):
     spec = REGISTRY[qual]
     timeout_ms = max(timeout_ms, getattr(spec, "timeout_ms", 0) or 0)
     ex = Exec(mode=mode, timeout_ms=timeout_ms, verbose=verbose, k=k)
     ex.skip = set(skip or ())
     ex.only_props = set(only_props) if only_props else None
     ex.leftover = []
+    if cpu_limit:
+        ex.cpu_deadline = time.process_time() + cpu_limit
     t = time.time()
     try:
         obs = ex.verify(spec, variant, root=root, budget=budget)
